@@ -44,7 +44,7 @@ CHECKS = {
         text="Coq theorems about RefBfs.v, an independent reference BFS (AVL set over states, no hashing, no torch): a finished run returns exactly the sizes of the textbook layers "
              "of Graph.v (proved to be the distance classes), none empty, and the next layer is empty; the prefix run returns the sizes of layers 0..k; the boolean row checks mean "
              "what they say (C17_check_exact_sound / C17_check_prefix_sound). Decision per row: EVERY row of EVERY shipped CSV (808 rows, as load_dataset returns them, cross-checked "
-             "with a raw parse) is handed to that verified function as a Coq term and decided by the kernel VM: whole growth function when the orbit is within budget (quick 40000, "
+             "with a raw parse) is handed to that verified function as a Coq term and decided by the kernel VM: whole growth function when the orbit is within budget (quick 25000, "
              "thorough 400000 states), otherwise the longest prefix within budget + starts with 1 + positive + sum = documented order (n!, n!/2, 2^n n!, C(n,k), m^(2n-3), |SL(n,Z/m)|, "
              "2x2x2 constants). The graph a key denotes is built by the library constructor that datasets.py names (T5: constructor names re-read from the current datasets.py by AST).",
         note="Trusted: Coq kernel + vm_compute; the documented-order table (trusted input, listed in the evidence; 310 rows have no documented order - Hungarian rings, globes, k-cycle "
